@@ -216,6 +216,12 @@ def check_c14(tier, only_cases=None):
             tf.writelines(lines); done += len(lines)
             if p.returncode == 0:
                 break
+            if p.returncode == 97 and done < len(cases) and aborted < 20:
+                # the harness's watchdog: the thread that polls the session never came back from this case
+                tf.write(json.dumps({"ev": "c14", "case": done, "c": cases[done], "gid": -1, "glen": 0, "hang": True,
+                                     "abort": p.stderr.strip()[-200:]}) + "\n")
+                done += 1; aborted += 1
+                continue
             if p.returncode > 0 or aborted >= 20:
                 raise ToolError(f"harness wire c14 failed rc={p.returncode}: {p.stderr[-1500:]}")
             if done < len(cases):
